@@ -371,8 +371,19 @@ def diff_runs(p, a, b, single_clock):
         return 'the time-sorted bundle sequences differ: %s vs %s' % ([(str(t), s) for t, s in ba], [(str(t), s) for t, s in bb])
     if single_clock and oa != ob:
         return 'the global order of resumptions differs: %s vs %s' % (oa, ob)
+    # a clock's order is fixed only if at most ONE task is put into its queue by another thread (its single head): later
+    # insertions from another clock's thread land among equal keys according to physical time
+    clock_of = {e[1]: json.dumps(e[3]) for e in a['events'] if e[0] == 'resume'}
+    cross = {}
+    for e in a['events']:
+        if e[0] == 'play':
+            parent = 'null' if e[1] is None else clock_of.get(e[1][0])
+            if parent != json.dumps(e[3]):
+                cross[json.dumps(e[3])] = cross.get(json.dumps(e[3]), 0) + 1
     for cl in p.get('order_clocks', []):
         key = json.dumps(cl)
+        if cross.get(key, 0) > 1:
+            continue
         xa, xb = [x for x in oa if x[1][2] == key], [x for x in ob if x[1][2] == key]
         if xa != xb:
             return 'the order of the wake-ups of clock %s (one group, ties included) differs: %s vs %s' % (key, xa, xb)
